@@ -3,19 +3,86 @@ package parse
 import "fmt"
 
 // parseExpr parses an expression.
+//
+// Binary operators are grouped by precedence climbing, see parseBinaryExpr;
+// the conditional operator binds loosest of all.
 func (t *Tree) parseExpr() (Expr, error) {
-	expr, err := t.parseInnerExpr()
+	expr, err := t.parseBinaryExpr(0)
 	if err != nil {
 		return nil, err
 	}
 
-	return t.parseOuterExpr(expr)
+	if nt := t.peekNonSpace(); nt.tokenType == tokenPunctuation && nt.value == "?" {
+		t.nextNonSpace()
+		tx, err := t.parseExpr()
+		if err != nil {
+			return nil, err
+		}
+		_, err = t.expectValue(tokenPunctuation, ":")
+		if err != nil {
+			return nil, err
+		}
+		fx, err := t.parseExpr()
+		if err != nil {
+			return nil, err
+		}
+		return NewTernaryIfExpr(expr, tx, fx, expr.Start()), nil
+	}
+
+	return expr, nil
+}
+
+// parseBinaryExpr parses an operand followed by any number of binary
+// operators whose precedence is at least minPrec. The right operand of an
+// operator only takes operators that bind tighter than it (or equally tight,
+// for right associative operators), so that operands group as defined by the
+// operator table.
+func (t *Tree) parseBinaryExpr(minPrec int) (Expr, error) {
+	left, err := t.parseInnerExpr()
+	if err != nil {
+		return nil, err
+	}
+	left, err = t.parseOuterExpr(left)
+	if err != nil {
+		return nil, err
+	}
+
+	for {
+		nt := t.peekNonSpace()
+		if nt.tokenType != tokenOperator {
+			return left, nil
+		}
+		op, ok := binaryOperators[nt.value]
+		if !ok {
+			t.nextNonSpace()
+			return nil, newUnexpectedTokenError(nt)
+		}
+		if op.precedence < minPrec {
+			return left, nil
+		}
+		t.nextNonSpace()
+
+		var right Expr
+		if op.op == OpBinaryIs || op.op == OpBinaryIsNot {
+			// The right operand of a test is the name of the test, not an expression.
+			right, err = t.parseRightTestOperand(nil)
+		} else if op.leftAssoc() {
+			right, err = t.parseBinaryExpr(op.precedence + 1)
+		} else {
+			right, err = t.parseBinaryExpr(op.precedence)
+		}
+		if err != nil {
+			return nil, err
+		}
+		left = NewBinaryExpr(left, op.Operator(), right, left.Start())
+	}
 }
 
 // parseOuterExpr attempts to parse an expression outside of an inner
 // expression.
-// An outer expression is defined as a modification to an inner expression.
-// Examples include attribute accessing, filter application, or binary operations.
+// An outer expression is defined as a modification to an inner expression
+// that binds tighter than any operator: attribute access, a method or
+// function call, or filter application.
 func (t *Tree) parseOuterExpr(expr Expr) (Expr, error) {
 	switch nt := t.nextNonSpace(); nt.tokenType {
 	case tokenParensOpen:
@@ -31,22 +98,20 @@ func (t *Tree) parseOuterExpr(expr Expr) (Expr, error) {
 		switch nt.value {
 		case ".", "[": // Dot or array access
 			var args = make([]Expr, 0)
-			attr, err := t.parseInnerExpr()
-			if err != nil {
-				return nil, err
-			}
+			var attr Expr
+			var err error
 
 			if nt.value == "[" {
-				ntt := t.peekNonSpace()
-				if ntt.tokenType != tokenArrayClose {
-					if attr, err = t.parseOuterExpr(attr); err != nil {
-						return nil, err
-					}
+				if attr, err = t.parseExpr(); err != nil {
+					return nil, err
 				}
 				if _, err := t.expect(tokenArrayClose); err != nil {
 					return nil, err
 				}
 			} else {
+				if attr, err = t.parseInnerExpr(); err != nil {
+					return nil, err
+				}
 				switch exp := attr.(type) {
 				case *NameExpr:
 					// valid, but we want to treat the name as a string
@@ -67,44 +132,19 @@ func (t *Tree) parseOuterExpr(expr Expr) (Expr, error) {
 			return t.parseOuterExpr(NewGetAttrExpr(expr, attr, args, nt.Pos))
 
 		case "|": // Filter application
-
-			// Parse the filter expression using parseInnerExpr to handle binary expressions
-			// or chained expressions
 			nx, err := t.parseInnerExpr()
-
 			if err != nil {
 				return nil, err
 			}
 
 			var resultExpr Expr
 			switch n := nx.(type) {
-			case *BinaryExpr:
-				switch b := n.Left.(type) {
-				case *NameExpr:
-					v := NewFilterExpr(b.Name, []Expr{expr}, nt.Pos)
-					n.Left = v
-					resultExpr = n
-				case *FuncExpr:
-					b.Args = append([]Expr{expr}, b.Args...)
-					v := NewFilterExpr(b.Name, b.Args, nt.Pos)
-					n.Left = v
-					resultExpr = n
-				default:
-					return nil, newUnexpectedTokenError(nt)
-				}
 			case *NameExpr:
 				resultExpr = NewFilterExpr(n.Name, []Expr{expr}, nt.Pos)
 
 			case *FuncExpr:
 				n.Args = append([]Expr{expr}, n.Args...)
 				resultExpr = NewFilterExpr(n.Name, n.Args, n.Pos)
-
-			case *FilterExpr:
-				// Handle chained filters: when parsing "filter1|filter2",
-				// filter2 might already be parsed as a FilterExpr
-				// We need to prepend the current expr to its arguments
-				n.Args = append([]Expr{expr}, n.Args...)
-				resultExpr = n
 
 			default:
 				return nil, newUnexpectedTokenError(nt)
@@ -113,59 +153,10 @@ func (t *Tree) parseOuterExpr(expr Expr) (Expr, error) {
 			// Continue parsing potential outer expressions (including more filters)
 			return t.parseOuterExpr(resultExpr)
 
-		case "?": // Ternary if
-			tx, err := t.parseExpr()
-			if err != nil {
-				return nil, err
-			}
-			_, err = t.expectValue(tokenPunctuation, ":")
-			if err != nil {
-				return nil, err
-			}
-			fx, err := t.parseExpr()
-			if err != nil {
-				return nil, err
-			}
-			return NewTernaryIfExpr(expr, tx, fx, expr.Start()), nil
-
 		default:
 			t.backup()
 			return expr, nil
 		}
-
-	case tokenOperator:
-		op, ok := binaryOperators[nt.value]
-		if !ok {
-			return nil, newUnexpectedTokenError(nt)
-		}
-
-		var right Node
-		var err error
-		if op.op == OpBinaryIs || op.op == OpBinaryIsNot {
-			right, err = t.parseRightTestOperand(nil)
-			if err != nil {
-				return nil, err
-			}
-			// Handle ternary specially
-			if v := t.peekNonSpace(); v.tokenType == tokenPunctuation && v.value == "?" {
-				return t.parseOuterExpr(NewBinaryExpr(expr, op.Operator(), right, expr.Start()))
-			}
-		} else {
-			right, err = t.parseExpr()
-			if err != nil {
-				return nil, err
-			}
-			if v, ok := right.(*BinaryExpr); ok {
-				nxop := binaryOperators[v.Op]
-				if nxop.precedence < op.precedence || (nxop.precedence == op.precedence && op.leftAssoc()) {
-					left := v.Left
-					res := NewBinaryExpr(expr, op.Operator(), left, expr.Start())
-					v.Left = res
-					return v, nil
-				}
-			}
-		}
-		return NewBinaryExpr(expr, op.Operator(), right, expr.Start()), nil
 
 	default:
 		t.backup()
@@ -218,7 +209,8 @@ func (t *Tree) parseInnerExpr() (Expr, error) {
 		if !ok {
 			return nil, newUnexpectedTokenError(tok)
 		}
-		expr, err := t.parseExpr()
+		// The operand extends over the operators that bind at least as tight as the unary operator.
+		expr, err := t.parseBinaryExpr(op.precedence)
 		if err != nil {
 			return nil, err
 		}
